@@ -18,6 +18,7 @@ Definition resp_eqb (a b : resp) : bool :=
   match a, b with
   | RIssued x, RIssued y => zlist_eqb x y
   | RLocated x, RLocated y => zlist_eqb x y
+  | RVersions x, RVersions y => zlist_eqb x y
   | RFailed, RFailed | RNotFound, RNotFound | RDenied, RDenied | RFound, RFound
   | RDestroyed, RDestroyed | RRefused, RRefused | RWrapNotFound, RWrapNotFound
   | RNotSupported, RNotSupported => true
